@@ -7,7 +7,7 @@
 From Coq Require Import ZArith List Bool.
 From ADV Require Import C10.Gen C10.Model C10.ModelSparse C10.Spec C10.ProofsIndex C10.ProofsViews C10.ProofsIter C10.ProofsIterSkip C10.ProofsOps C10.ProofsTip C10.ProofsTipGen C10.ProofsOpsView C10.ProofsSparse C10.ProofsSparseT
                         C10.GenAcc C10.ProofsAcc C10.ProofsPermView C10.ProofsTipAll C10.ProofsTipView
-                        C10.ModelBin C10.ProofsBinView C10.ProofsJoint C10.ModelMap C10.ProofsMap C10.GenLoop C10.ProofsLoop.
+                        C10.ModelBin C10.ProofsBinView C10.ProofsJoint C10.ModelMap C10.ProofsMap C10.GenLoop C10.ProofsLoop C10.ProofsEqViews.
 Import ListNotations.
 Open Scope Z_scope.
 
@@ -620,6 +620,42 @@ Proof. exact ProofsMap.map_closed_form. Qed.
 Example map_closed_form_nontrivial :
   map_accum (cb_affine 2 1 1) 5 [2; 6; 3; 7] = (148, [15; 39; 73; 155]).
 Proof. exact ProofsMap.map_closed_form_nontrivial. Qed.
+
+(* ---- 6e'. Equals with BOTH sides views of ONE storage (round 7; ProofsEqViews.v, replayed as BEquals in the second stream) ----
+   shifted windows of one parent, a square window against its own T(), a window against itself: on well-formed views
+   the result is the dimension panic or "every position holds equal elements" -- decided by the elements the two
+   views denote, never by the storage they share (there is no hypothesis on d_values / offsets / flags) *)
+Theorem equals_closed_form : forall real H (a b : mat), wf_in H a -> wf_in H b ->
+  mEquals real H a b =
+  if (d_rows a =? d_rows b) && (d_cols a =? d_cols b) then ROk (elems_agree real H a b) else RPanic.
+Proof. exact ProofsEqViews.equals_closed_form. Qed.
+Theorem equals_true_iff_all_elements_equal : forall real H (a b : mat), wf_in H a -> wf_in H b ->
+  d_rows a = d_rows b -> d_cols a = d_cols b ->
+  exists e, mEquals real H a b = ROk e /\
+    (e = true <-> forall i j, in_range a i j -> mAT real H a i j = mAT real H b i j).
+Proof. exact ProofsEqViews.equals_true_iff_all_elements_equal. Qed.
+(* ... hence the call on the two views = the call on two independent deep copies, in both argument orders *)
+Theorem equals_on_two_views_equals_on_deep_copies : forall real H (a b : mat), wf_in H a -> wf_in H b ->
+  exists Ha ca Hb cb, deep_copy real H a = ROk (Ha, ca) /\ deep_copy real Ha b = ROk (Hb, cb) /\
+    d_values ca <> d_values cb /\ d_values ca <> d_values a /\ d_values ca <> d_values b /\
+    d_values cb <> d_values a /\ d_values cb <> d_values b /\ whole ca /\ whole cb /\
+    mEquals real H a b = mEquals real Hb ca cb /\ mEquals real H b a = mEquals real Hb cb ca.
+Proof. exact ProofsEqViews.equals_on_two_views_equals_on_deep_copies. Qed.
+Example equals_views_nontrivial :
+  let H := [[1; 2; 1; 2; 1; 2; 4; 2; 1]] in
+  let p := new_mat 0 3 3 in
+  let a := apply_views false p [VSlice 0 2 0 2] in
+  let b := apply_views false p [VSlice 1 3 1 3] in
+  let d := apply_views false p [VSlice 1 3 0 2] in
+  let aT := apply_views false p [VSlice 0 2 0 2; VT] in
+  let dT := apply_views false p [VSlice 1 3 0 2; VT] in
+  wf_in H a /\ wf_in H b /\ wf_in H d /\ wf_in H aT /\ wf_in H dT /\
+  d_values a = d_values b /\ d_values d = d_values dT /\ a <> b /\ d <> dT /\
+  read_all false H a = ROk [1; 2; 2; 1] /\ read_all false H b = ROk [1; 2; 2; 1] /\ read_all false H d = ROk [2; 1; 4; 2] /\
+  mEquals false H a b = ROk true /\ mEquals false H a d = ROk false /\
+  mEquals false H a aT = ROk true /\ mEquals false H d dT = ROk false /\ mEquals false H dT d = ROk false /\
+  mEquals false H a p = RPanic.
+Proof. exact ProofsEqViews.equals_views_nontrivial. Qed.
 
 (* ---- 6f. the traversal of EVERY cell-by-cell whole-matrix method, re-derived from the source on every run ----
    GenLoop.v (go2coq_c10/loops.go, all nine dense instantiations): Reset, SetIdentity, Set, Map, MapSet, Reduce,
